@@ -461,17 +461,6 @@ Proof.
     intros i. rewrite H4, occupancy_repeat_some. cbn [Nat.add]. apply Hfor.
 Qed.
 
-(** the scan formulation evaluated by the correspondence check is the model *)
-Theorem ring_of_counts_scan_eq sorted counts :
-  ring_of_counts_scan sorted counts = ring_of_counts sorted counts.
-Proof.
-  unfold ring_of_counts_scan, ring_of_counts, make_ring.
-  destruct ((used_slots counts <? 0) || (2 ^ 45 <? used_slots counts))%Z; [reflexivity|].
-  cbn [bind]. set (U := Z.to_nat (used_slots counts)).
-  assert (HlenU : length (repeat (@None nat) U) = U) by apply repeat_length.
-  pose proof (fill_scan_eq sorted (repeat None U)) as H. rewrite HlenU in H. symmetry. exact H.
-Qed.
-
 (** [stable_order] is one admissible arrangement *)
 Lemma insert_slot_perm x l : Permutation (insert_slot x l) (x :: l).
 Proof.
@@ -483,6 +472,116 @@ Lemma stable_order_perm l : Permutation (stable_order l) l.
 Proof.
   induction l as [|x l IH]; cbn [stable_order fold_right]; [reflexivity|].
   fold (stable_order l). rewrite insert_slot_perm. now constructor.
+Qed.
+
+(** the scan formulation evaluated by the correspondence check is the model *)
+Theorem ring_of_counts_scan_eq sorted counts :
+  ring_of_counts_scan sorted counts = ring_of_counts sorted counts.
+Proof.
+  unfold ring_of_counts_scan, ring_of_counts, make_ring.
+  destruct ((used_slots counts <? 0) || (2 ^ 45 <? used_slots counts))%Z; [reflexivity|].
+  cbn [bind]. set (U := Z.to_nat (used_slots counts)).
+  assert (HlenU : length (repeat (@None nat) U) = U) by apply repeat_length.
+  pose proof (fill_scan_eq sorted (repeat None U)) as H. rewrite HlenU in H. symmetry. exact H.
+Qed.
+
+
+(* ---------- the crash status without building the ring ---------- *)
+Definition zpos_sum (l : list Z) : Z :=
+  fold_right (fun n s => ((if (0 <? n)%Z then n else 0) + s)%Z) 0%Z l.
+
+Lemma wanted_slots_gen counts : forall p,
+  fold_left (fun p n => if (n <=? 0)%Z then p else (p + n)%Z) counts p = (p + zpos_sum counts)%Z.
+Proof.
+  induction counts as [|n counts IH]; intros p; cbn [fold_left zpos_sum fold_right]; [lia|].
+  fold (zpos_sum counts). rewrite IH.
+  destruct (n <=? 0)%Z eqn:E1, (0 <? n)%Z eqn:E2; lia.
+Qed.
+
+Lemma placed_total_indexed_any counts : forall a,
+  Z.of_nat (placed_total (combine (seq a (length counts)) counts)) = zpos_sum counts.
+Proof.
+  induction counts as [|n counts IH]; intros a; [reflexivity|].
+  cbn [length seq combine placed_total zpos_sum fold_right]. fold (zpos_sum counts).
+  rewrite Nat2Z.inj_add, IH. destruct (0 <? n)%Z eqn:E; [rewrite Z2Nat.id by lia|]; lia.
+Qed.
+
+Lemma probe_scan_full r next : next < length r -> occupancy None r = 0 -> probe_scan r next = Err diverges.
+Proof. intros H1 H2. rewrite <- probe_scan_eq. now apply probe_full_diverges. Qed.
+
+Lemma place_scan_overflow t step used : 0 < used ->
+  forall k r next, length r = used -> occupancy None r < k -> next < used ->
+  place_scan k t step used r next = Err diverges.
+Proof.
+  intros Hu k; induction k as [|k IH]; intros r next Hlen Hk Hnext; [lia|].
+  cbn [place_scan]. destruct (Nat.eq_dec (occupancy None r) 0) as [H0|Hpos].
+  - rewrite probe_scan_full by lia. reflexivity.
+  - destruct (probe_scan_ok r next) as (p & Hp & Hnone); [lia|lia|].
+    rewrite Hp. cbn [bind].
+    destruct (Nat.eqb used 0) eqn:E0; [apply Nat.eqb_eq in E0; lia|].
+    pose proof (occupancy_set_nth None r p None (Some t) Hnone) as HoN. cbn [slot_eqb] in HoN.
+    apply IH; [now rewrite length_set_nth|lia|apply Nat.mod_upper_bound; lia].
+Qed.
+
+Lemma fill_scan_overflow used : 0 < used ->
+  forall slots r, length r = used -> occupancy None r < placed_total slots ->
+  fill_scan slots used r = Err diverges.
+Proof.
+  intros Hu slots; induction slots as [|[j n] rest IH]; intros r Hlen Hroom; cbn [placed_total] in Hroom; [lia|].
+  cbn [fill_scan]. destruct (n <=? 0)%Z eqn:En.
+  - assert (Hz : (0 <? n)%Z = false) by lia. rewrite Hz in Hroom. apply IH; [exact Hlen|lia].
+  - assert (Hz : (0 <? n)%Z = true) by lia. rewrite Hz in Hroom.
+    destruct (Nat.lt_ge_cases (occupancy None r) (Z.to_nat n)) as [Hlt|Hge].
+    + rewrite (place_scan_overflow j _ used Hu (Z.to_nat n) r 0 Hlen Hlt Hu). reflexivity.
+    + destruct (place_scan_spec j (Z.to_nat (Z.of_nat used / n)) used Hu (Z.to_nat n) r 0 Hlen Hge Hu)
+        as (r1 & Hp & Hl1 & HN1 & _). rewrite Hp. cbn [bind]. apply IH; [exact Hl1|lia].
+Qed.
+
+Lemma fill_scan_nothing slots used r : placed_total slots = 0 -> fill_scan slots used r = Ok r.
+Proof.
+  induction slots as [|[j n] rest IH]; intros H0; [reflexivity|].
+  cbn [fill_scan placed_total] in *. destruct (n <=? 0)%Z eqn:En; [apply IH; lia|].
+  assert ((0 <? n)%Z = true) as Hz by lia. rewrite Hz in H0. lia.
+Qed.
+
+Lemma fill_scan_empty_panic slots : 0 < placed_total slots -> fill_scan slots 0 [] = Panic.
+Proof.
+  induction slots as [|[j n] rest IH]; intros H0; cbn [placed_total] in H0; [lia|].
+  cbn [fill_scan]. destruct (n <=? 0)%Z eqn:En.
+  - assert (Hz : (0 <? n)%Z = false) by lia. rewrite Hz in H0. apply IH. lia.
+  - destruct (Z.to_nat n) as [|k] eqn:Ek; [lia|]. reflexivity.
+Qed.
+
+(** [ring_status] is the crash status of the ring construction: for EVERY vector of
+    64-bit slot counts (negative ones and wrapped sums included) and every arrangement
+    the sort may leave, [ring_of_counts] panics / never terminates / succeeds exactly as
+    [ring_status] says. *)
+Theorem ring_status_correct counts sorted :
+  Permutation sorted (indexed counts) ->
+  status_of (ring_of_counts sorted counts) = ring_status counts.
+Proof.
+  intros Hperm. rewrite <- ring_of_counts_scan_eq.
+  unfold ring_of_counts_scan, ring_status, make_ring.
+  destruct ((used_slots counts <? 0) || (2 ^ 45 <? used_slots counts))%Z eqn:Erange; [reflexivity|].
+  apply orb_false_iff in Erange. destruct Erange as [Eneg Ebig].
+  cbn [bind]. set (U := Z.to_nat (used_slots counts)).
+  assert (HU : Z.of_nat U = used_slots counts) by (unfold U; lia).
+  assert (Hp : wanted_slots counts = Z.of_nat (placed_total sorted)).
+  { unfold wanted_slots. rewrite wanted_slots_gen. rewrite (placed_total_perm _ _ Hperm).
+    unfold indexed. rewrite placed_total_indexed_any. lia. }
+  rewrite Hp.
+  assert (HlenU : length (repeat (@None nat) U) = U) by apply repeat_length.
+  destruct (Z.of_nat (placed_total sorted) =? 0)%Z eqn:E0.
+  - rewrite fill_scan_nothing by lia. reflexivity.
+  - destruct (used_slots counts =? 0)%Z eqn:E1.
+    + assert (U = 0) by lia. replace U with 0 by lia. cbn [repeat].
+      rewrite fill_scan_empty_panic by lia. reflexivity.
+    + destruct (used_slots counts <? Z.of_nat (placed_total sorted))%Z eqn:E2.
+      * rewrite (fill_scan_overflow U ltac:(lia) sorted (repeat None U) HlenU); [reflexivity|].
+        rewrite occupancy_repeat_none. lia.
+      * destruct (fill_scan_spec U ltac:(lia) sorted (repeat None U) HlenU) as (r & Hr & _).
+        { rewrite occupancy_repeat_none. lia. }
+        rewrite Hr. reflexivity.
 Qed.
 
 (* non-vacuity: a concrete vector meets the hypotheses, in two arrangements *)
